@@ -76,6 +76,18 @@ theorem gen_src_batch_sites :
     src_timed_pop_n = Skel.Pinned.timed_pop_n :=
   ⟨rfl, rfl, rfl, rfl, rfl⟩
 
+/-- source text of the scheduling interface the waits and wake-ups go through (sched_interface.hpp): one FUTEX_WAIT syscall per
+wait with the caller's relative timeout and no retry loop, FUTEX_WAKE(INT32_MAX) for wake_all -/
+theorem gen_src_sched :
+    src_sched_futex_wait = Skel.Pinned.sched_futex_wait ∧
+    src_sched_futex_wake_one = Skel.Pinned.sched_futex_wake_one ∧
+    src_sched_futex_wake_all = Skel.Pinned.sched_futex_wake_all ∧
+    src_sched_usleep = Skel.Pinned.sched_usleep ∧
+    src_sched_yield = Skel.Pinned.sched_yield ∧
+    src_futex_wait = Skel.Pinned.futex_wait ∧
+    src_futex_wake_all = Skel.Pinned.futex_wake_all :=
+  ⟨rfl, rfl, rfl, rfl, rfl, rfl, rfl⟩
+
 /-! ### no lost wake-up at the futex level -/
 /-- **bq_sleep_sound.**  (S0) a thread hands to futex_wait only a word value with the waiter bit set;
 (S1) while a thread sleeps on a slot, that slot's waiter bit is still set — so the next releaser that
